@@ -157,6 +157,42 @@ func c04Case(rng *rand.Rand, i int) obj {
 		g.failAt = 1 + rng.Intn(12)
 	}
 	doc := dg.pipeline()
+	// twin keys: an escaped key next to its unescaped twin ("$$T" and "$T"): the first expands to the
+	// second's ORIGINAL spelling, the second to a value - no two results collide, yet a rename applied
+	// in place can destroy one of them
+	if top, ok := doc.(orderedJSON); ok && i%3 == 0 {
+		g.n++
+		tv := fmt.Sprintf("T%d", g.n)
+		g.env[tv] = "twin-value-" + tv
+		esc := []any{tokEsc(tv, "dd")}
+		ref := []any{tokRef(tv, "plain")}
+		g.strings = append(g.strings, [2]any{spell(esc), esc}, [2]any{spell(ref), ref})
+		twins := func() orderedJSON { return orderedJSON{{spell(esc), "a"}, {spell(ref), "b"}, {"plain", "c"}} }
+		for pi, p := range top {
+			if p[0] != "steps" {
+				continue
+			}
+			steps, _ := p[1].([]any)
+			for si, st := range steps {
+				if m, ok := st.(orderedJSON); ok {
+					isCmd := false
+					for _, q := range m {
+						if q[0] == "command" {
+							isCmd = true
+						}
+					}
+					if isCmd {
+						m = append(m, [2]any{"twins", twins()}, [2]any{"meta", orderedJSON{{"deep", twins()}}})
+						steps[si] = m
+						break
+					}
+				}
+			}
+			top[pi][1] = steps
+		}
+		top = append(top, [2]any{"x-twins", twins()})
+		doc = top
+	}
 	src := string(asciiJSON(doc))
 	if i%7 == 6 {
 		// a subtree shared through a YAML anchor/alias: each alias is an independent copy
